@@ -72,7 +72,7 @@ use futures_core::Stream;
 use log::warn;
 use percent_encoding::{utf8_percent_encode, AsciiSet, NON_ALPHANUMERIC};
 use snafu::{ensure, OptionExt, ResultExt};
-use std::collections::HashMap;
+use std::collections::{HashMap, HashSet};
 use std::path::{Path, PathBuf};
 use tempfile::NamedTempFile;
 use tokio::fs::{canonicalize, create_dir_all};
@@ -1196,6 +1196,7 @@ async fn load_targets(
     // 4.5. Perform a preorder depth-first search for metadata about the desired target, beginning
     //   with the top-level targets role.
     if let Some(delegations) = &mut targets.signed.delegations {
+        let mut visited_roles = HashSet::new();
         load_delegations(
             transport,
             snapshot,
@@ -1204,6 +1205,7 @@ async fn load_targets(
             max_targets_size,
             delegations,
             datastore,
+            &mut visited_roles,
         )
         .await?;
     }
@@ -1224,6 +1226,7 @@ async fn load_delegations(
     max_targets_size: u64,
     delegation: &mut Delegations,
     datastore: &Datastore,
+    visited_roles: &mut HashSet<String>,
 ) -> Result<()> {
     let mut delegated_roles: HashMap<String, Option<Signed<crate::schema::Targets>>> =
         HashMap::new();
@@ -1236,6 +1239,15 @@ async fn load_delegations(
             .with_context(|| error::RoleNotInMetaSnafu {
                 name: delegated_role.name.clone(),
             })?;
+
+        // A role name is loaded at most once per update. Without this, a role that (directly or
+        // through other roles) delegates to itself makes the client fetch metadata forever.
+        ensure!(
+            visited_roles.insert(delegated_role.name.clone()),
+            error::DelegatedRolesNotConsistentSnafu {
+                name: delegated_role.name.clone(),
+            }
+        );
 
         let path = if consistent_snapshot {
             format!(
@@ -1305,6 +1317,7 @@ async fn load_delegations(
                     max_targets_size,
                     delegations,
                     datastore,
+                    visited_roles,
                 )
                 .await?;
             }
